@@ -30,7 +30,7 @@ PROPS = {
     "C10": {
         "rules": [r_panic.run, r_panic.run_errprop, r_panic.run_narrow_arith,
                   kind_scope("dictionary::connector", "dictionary::mapper", "dictionary::unknown", "dictionary::lexicon"), r_cand.unkcover,
-                  r_panic.run_tok, r_map.verifystrict, r_scorer.rawbuild, r_char.packguard, r_panic.fieldwidth],
+                  r_panic.run_tok, r_map.verifystrict, r_scorer.rawbuild, r_char.packguard, r_panic.fieldwidth, r_map.run_compose],
         "explanation": "PANIC: every potential panic or silent-wrap site (assert terminators for "
                        "bounds/overflow/division/shift, calls to unwrap/expect/panic!/assert!/"
                        "indexing/copy_from_slice/chunks/..., narrowing `as` casts) in the "
@@ -75,7 +75,7 @@ PROPS = {
         "technique": "column-to-field dataflow rule, iterator-chain shape rules, kind propagation",
     },
     "C14": {
-        "rules": [r_fmt.run_c14, r_cost.run_c14, kind_scope("trainer::model"), r_kind.bins("dictgen-bin"), r_misc.cache, r_misc.idxbase,
+        "rules": [r_fmt.run_c14, r_cost.run_c14, kind_scope("trainer::model", "::verify", "dictionary::connector::ConnectorWrapper"), r_kind.bins("dictgen-bin"), r_misc.cache, r_misc.idxbase,
                   r_codec.run_c18, r_feat.csvdefault, r_writedict.run, r_writedict.chartype, r_writedict.userrows],
         "explanation": "FMT: each generated file's row template (delimiters, column count and "
                        "order, quoted surface first, feature last) matches what the compiler's "
@@ -93,9 +93,9 @@ PROPS = {
                      "sign-parity and scale-source rules",
     },
     "C16": {
-        "rules": [r_fmt.run_c16, r_cost.run_c16, kind_scope("trainer::model", "raw_connector", "dual_connector"), r_scorer.scorer_build, r_kind.bins("dictgen-bin", "compile-bin"), r_fmt.csvrow,
+        "rules": [r_fmt.run_c16, r_cost.run_c16, kind_scope("trainer::model", "raw_connector", "dual_connector", "dictionary::connector::ConnectorWrapper", "::verify"), r_scorer.scorer_build, r_kind.bins("dictgen-bin", "compile-bin"), r_fmt.csvrow,
                   r_scorer.reserved0, r_scorer.padval, r_scorer.rowrange, r_scorer.pruneset,
-                  r_misc.bigram_details_shape, r_scorer.rawbuild, r_scorer.templatesize],
+                  r_misc.bigram_details_shape, r_scorer.rawbuild, r_scorer.templatesize, r_misc.rawcost],
         "explanation": "FMT: bigram.left/right lines are `id TAB csv` with 1-based ids (what "
                        "parse_features and the id == line+1 check require); bigram.cost lines are "
                        "`left-word feature / right-word feature TAB cost`, matching the order in "
@@ -110,7 +110,7 @@ PROPS = {
     "C18": {
         "rules": [kind_scope("trainer", "mecab"), r_fmt.bigram_files, r_codec.run_c18,
                   r_misc.template_cover, r_misc.regex_trainer, r_misc.csvsplit, r_fmt.csvrow, r_misc.bigram_details_shape,
-                  r_writedict.chartype, r_rewrite.run, r_writedict.run, r_writedict.userrows],
+                  r_writedict.chartype, r_rewrite.run, r_writedict.run, r_writedict.userrows, r_misc.trimconfig, r_char.run_key],
         "explanation": "KIND over the trainer: unigram/left/right templates, id tables and "
                        "next-id counters are never mixed (same-family rule on "
                        "extract_feature_ids), extract_left/right results reach the matching "
@@ -125,7 +125,7 @@ PROPS = {
         "technique": "kind propagation with family-polymorphic helper rule",
     },
     "C19": {
-        "rules": [r_fmt.run_c19, r_feat.csvdefault],
+        "rules": [r_fmt.run_c19, r_feat.csvdefault, r_fmt.split_all],
         "explanation": "FMT: Example::write emits `surface TAB feature` lines and an `EOS` line on "
                        "every path using complete writes; the tokenizer CLI's MeCab mode emits "
                        "the same shape; Corpus::from_reader splits at the same TAB into exactly "
@@ -138,7 +138,8 @@ PROPS = {
     },
     "C20": {
         "rules": [kind_scope("mecab", "dictionary::connector"), r_fmt.csvrow, r_cost.run_c20, r_fmt.bigram_files, r_misc.template_cover,
-                  r_scorer.scorer_build, r_misc.regex_mecab, r_scorer.padval, r_scorer.reserved0, r_misc.mecab_ids],
+                  r_scorer.scorer_build, r_misc.regex_mecab, r_scorer.padval, r_scorer.reserved0, r_misc.mecab_ids,
+                  r_misc.trimconfig, r_misc.rawcost],
         "explanation": "KIND: the documented left/right inversion of right-id.def/left-id.def is "
                        "applied consistently (readers, extractors, maps, writers, loop bounds vs "
                        "looked-up map); SIGN: cost = -(weight x factor); COSTTYPE: i32 as the "
@@ -151,7 +152,7 @@ PROPS = {
     },
     "C07": {
         "rules": [r_scorer.run, kind_scope("connector", "scorer", "builder"), r_kind.bins("compile-bin"), r_fmt.csvrow, r_panic.run_narrow_connector,
-                  r_codec.derived_caches, r_codec.lanes_rule, r_codec.simd_build_rule],
+                  r_codec.derived_caches, r_codec.lanes_rule, r_codec.simd_build_rule, r_misc.rawcost],
         "explanation": "SCORERCHK: in the portable build costs[pos] is read only on the true edge "
                        "of checks[pos] == key1 at pos = bases[key1] ^ key2; in the AVX2 build the "
                        "cost gather is masked by cmpeq(check, key1) AND the position-validity "
@@ -349,7 +350,7 @@ PROPS = {
     },
     "C17": {
         "rules": [r_rewrite.run, kind_scope("trainer::config", "trainer::Trainer::extract_feature_set"), kind_scope("trainer::model"),
-                  r_codec.run_c18, r_misc.regex_trainer, r_misc.csvsplit, r_fmt.csvrow],
+                  r_codec.run_c18, r_misc.regex_trainer, r_misc.csvsplit, r_fmt.csvrow, r_misc.trimconfig],
         "explanation": "FIRSTMATCH-BUILD: FeatureRewriterBuilder::add_rule moves along an existing "
                        "trie edge only when that edge is the newest action of its node (or never), "
                        "and appends new actions: the rules below every edge are then a contiguous "
